@@ -1,4 +1,5 @@
 """C07: wishbone.Decoder against specs/WbDecoder*.tla."""
+from amaranth.lib import wiring
 from . import common, hwcheck
 from .common import bits, unbits
 
@@ -62,6 +63,11 @@ class Adapter:
                                     features=featset(sc["feat"]), path=(f"sub{k}",))
             sb.memory_map = MemoryMap(addr_width=max(1, sc["aw"] + lg(sc["dw"] // sc["gran"])),
                                       data_width=sc["gran"])
+            # every third subordinate is handed over the way a component's bus port or a nested decoder's .bus is:
+            # as a flipped interface (same signals, signature seen from the other side)
+            is_flipped = (k + cfg["aw"]) % 3 == 1
+            if is_flipped:
+                sb = wiring.flipped(sb)
             for a in sc.get("align_to") or []:
                 dec.align_to(a)
             retried = k >= 1 and (k + cfg["aw"]) % 2 == 1
@@ -79,6 +85,9 @@ class Adapter:
             except ValueError as e:
                 if retried:
                     raise common.Violation("retry-refused", f"after a refused attempt, wishbone.Decoder.add() refuses the legal window {sc}: {e}")
+                if is_flipped:
+                    raise common.Violation("flipped-refused", f"wishbone.Decoder.add() refuses a subordinate handed over as a flipped "
+                                           f"interface although it accepts the same interface unflipped: {sc}: {e}")
                 raise
             if got[0] != sc["start"] or got[1] - got[0] != sc.get("span_map", sc["span"]):
                 raise common.MachineryError(f"window placement not reproducible: {sc} -> {got}")
@@ -93,11 +102,16 @@ class Adapter:
                                     features=featset(sc["feat"]), path=(f"out{k}",))
             sb.memory_map = MemoryMap(addr_width=max(1, sc["aw"] + lg(sc["dw"] // sc["gran"])),
                                       data_width=sc["gran"])
+            if (k + cfg["aw"]) % 2 == 0:
+                sb = wiring.flipped(sb)
             try:
                 dec.add(sb, name=sc.get("name"), addr=sc.get("addr"), sparse=not sc["dense"])
             except ValueError:
                 outsiders.append(sb)
             else:
+                if isinstance(sb, wiring.FlippedInterface):
+                    raise common.Violation("flipped-accepted", "wishbone.Decoder.add() accepts, handed over as a flipped interface, "
+                                           f"a subordinate it refuses unflipped (window or optional outputs it cannot relay): {sc}")
                 raise common.MachineryError("a subordinate recorded as refused was accepted on rebuild")
         b = dec.bus
         ins = {s: getattr(b, s) for s in ("adr", "cyc", "stb", "we", "sel", "dat_w")}
